@@ -1,6 +1,7 @@
 package main
 
 import (
+	"errors"
 	"bytes"
 	"encoding/binary"
 	"fmt"
@@ -253,6 +254,20 @@ func runSnapshotCase(out *vh.Out, in *interner, rng *vh.Rng, thorough bool, case
 		var c cid.Cid
 		var hdr *certstore.SnapshotHeader
 		useLatest := end == latest && rng.Bool()
+		if rng.Chance(1, 3) {
+			// an export that fails after it has begun (end point beyond the latest certificate, or a writer that
+			// gives up) on the same Store object, before the export that is judged: the digest of an export is the
+			// digest of ITS bytes, whatever happened on the handle before
+			guard(func() string {
+				if rng.Bool() {
+					var junk bytes.Buffer
+					_, _, err := s.cs.ExportSnapshot(ctx, latest+1+uint64(rng.Intn(3)), &junk)
+					return errKind(err)
+				}
+				_, _, err := s.cs.ExportSnapshot(ctx, end, &failingWriter{after: 1 + rng.Intn(200)})
+				return errKind(err)
+			})
+		}
 		res := guard(func() string {
 			var err error
 			if useLatest {
@@ -508,4 +523,17 @@ func importErrKind(err error) string {
 	default:
 		return k
 	}
+}
+
+// failingWriter accepts `after` bytes and then fails every write.
+type failingWriter struct{ after int }
+
+func (f *failingWriter) Write(p []byte) (int, error) {
+	if len(p) <= f.after {
+		f.after -= len(p)
+		return len(p), nil
+	}
+	n := f.after
+	f.after = 0
+	return n, errors.New("writer gave up")
 }
